@@ -655,7 +655,11 @@ func (d *DBRPNode) UnmarshalJSON(data []byte) error {
 }
 
 func (d *DBRPNode) DBRP() string {
-	return "\"" + d.DB.Reference + "\"" + "." + "\"" + d.RP.Reference + "\""
+	var buf bytes.Buffer
+	d.DB.Format(&buf, "", false)
+	buf.WriteByte('.')
+	d.RP.Format(&buf, "", false)
+	return buf.String()
 }
 
 func (d *DBRPNode) Equal(o interface{}) bool {
